@@ -349,6 +349,14 @@ def cache_history(job):
     for a, l in hist.items():
         for n, t in enumerate(l):
             hid[t.txid] = ('h', 10 * (1 if a == 'a1' else 2) + n)
+    # the (static) truth about unspent outputs, balances and spent flags
+    utruth = {a: [{'address': addrs[a], 'txid': t.txid, 'confirmations': t.confirmations, 'output_n': 0, 'input_n': 0,
+                   'block_height': t.block_height, 'fee': t.fee, 'size': t.size, 'value': t.outputs[0].value, 'script': '', 'date': t.date}
+                  for t in l] for a, l in hist.items()}
+    btruth = {a: sum(u['value'] for u in l) for a, l in utruth.items()}
+    spent_truth = {(singles[('t', 1)].txid, 0), (singles[('t', 3)].txid, 0)}
+    for k in (('t', 1), ('t', 3)):
+        singles[k].outputs[0].spent = True      # what a provider answers in full is consistent with its isspent answers
     btxs = {('b', i): mk(20 + i, HEIGHT) for i in range(NB)}
     allt = dict(singles)
     allt.update(btxs)
@@ -377,6 +385,17 @@ def cache_history(job):
                     'tx_count': NB, 'txs': txs if parse_transactions else [t.txid for t in txs], 'version': 0x20000000,
                     'page': page, 'pages': None, 'limit': limit}
         V[(p, 'getblock')] = getblock
+
+        def getutxos(address, after_txid='', limit=20):
+            a = next(x for x, v in addrs.items() if v == address)
+            l = [u for u in utruth[a]]
+            ids = [u['txid'] for u in l]
+            if after_txid and after_txid in ids:
+                l = l[ids.index(after_txid) + 1:]
+            return [dict(u) for u in l[:limit]]
+        V[(p, 'getutxos')] = getutxos
+        V[(p, 'getbalance')] = lambda addresslist: sum(btruth[next(x for x, v in addrs.items() if v == ad)] for ad in addresslist)
+        V[(p, 'isspent')] = lambda txid, output_n: 1 if (txid, output_n) in spent_truth else 0      # as the real clients answer
     dbf = os.path.join(tempfile.mkdtemp(prefix='cache_', dir=os.environ['BCL_DATA_DIR']), 'cache.sqlite')
     srv = Service(network=network, providers=['vfake'], cache_uri='sqlite:///' + dbf)
     fee_default = srv.network.fee_default
@@ -384,10 +403,14 @@ def cache_history(job):
         srv.providers[p]['url'] = ''          # one provider: "ok" or "fail" is the whole fail-over outcome
     events = []
     desc = []
+    if srv._blockcount:
+        # the constructor has asked the provider for the block count
+        events.append({'op': 'count', 'prov': 'ok', 'ok': True, 'val': HEIGHT + 99, 'ret': int(srv._blockcount)})
+        desc.append('Service(): blockcount() prov=ok')
     for _ in range(nops):
         prov = rng.choice(['ok', 'ok', 'fail'])
         vfake.SCRIPT['p1'] = 'ok' if prov == 'ok' else 'raise'
-        op = rng.choice(['tx', 'raw', 'block', 'block', 'block', 'fee', 'txs', 'txs'])
+        op = rng.choice(['tx', 'raw', 'block', 'block', 'block', 'fee', 'txs', 'txs', 'utxos', 'utxos', 'balance', 'isspent', 'isspent', 'count'])
         ev = {'op': op, 'prov': prov, 'ok': True}
         d = [op]
         try:
@@ -415,6 +438,48 @@ def cache_history(job):
                 else:
                     ev['ret'] = [list(hid.get(t.txid, ('corrupt', n))) if _fp_light(t) == _fp_light(next((x for x in hist[a] if x.txid == t.txid), t))
                                  else ['corrupt', n] for n, t in enumerate(r)]
+            elif op == 'utxos':
+                a = rng.choice(['a1', 'a2'])
+                ev['a'] = a
+                ev['full'] = [list(hid[u['txid']]) + [u['output_n'], u['value']] for u in utruth[a]]
+                d[0] = 'getutxos(%s) prov=%s' % (a, prov)
+                r = srv.getutxos(addrs[a])
+                if r is False or r is None:
+                    ev['ok'] = False
+                    ev['ret'] = []
+                else:
+                    ev['ret'] = [list(hid.get(u['txid'], ('corrupt', n))) + [u['output_n'], u['value']] for n, u in enumerate(r)]
+            elif op == 'balance':
+                al = rng.choice([['a1'], ['a2'], ['a1', 'a2'], ['a2', 'a1']])
+                ev['as'] = al
+                ev['val'] = sum(btruth[a] for a in al)
+                d[0] = 'getbalance(%s) prov=%s' % (al, prov)
+                r = srv.getbalance([addrs[a] for a in al])
+                if r is False or r is None:
+                    ev['ok'] = False
+                    ev['ret'] = 0
+                else:
+                    ev['ret'] = int(r)
+            elif op == 'isspent':
+                k = rng.choice([('t', 1), ('t', 2), ('t', 3)])
+                n = rng.choice([0, 0, 1])
+                ev.update({'t': '%s%d' % k, 'n': n, 'truth': (singles[k].txid, n) in spent_truth})
+                d[0] = 'isspent(%s, %d) prov=%s' % (k, n, prov)
+                r = srv.isspent(singles[k].txid, n)
+                if r is None:
+                    ev['ok'] = False
+                    ev['ret'] = False
+                else:
+                    ev['ret'] = bool(r)
+            elif op == 'count':
+                ev['val'] = HEIGHT + 99
+                d[0] = 'blockcount() prov=%s' % prov
+                r = srv.blockcount()
+                if r is False or r is None:
+                    ev['ok'] = False
+                    ev['ret'] = 0
+                else:
+                    ev['ret'] = int(r)
             elif op == 'block':
                 limit = rng.choice([1, 2, 3, 4, 5, 6])
                 page = rng.randrange(1, (NB + limit - 1) // limit + 1)
@@ -446,10 +511,11 @@ def cache_history(job):
                     ev['ret'] = r
         except ServiceError:
             ev['ok'] = False
-            ev.setdefault('ret', ['none', 0] if op in ('tx', 'raw') else ([] if op in ('block', 'txs') else 0))
+            ev.setdefault('ret', ['none', 0] if op in ('tx', 'raw') else ([] if op in ('block', 'txs', 'utxos') else (False if op == 'isspent' else 0)))
         except Exception as e:
             ev['ok'] = True
-            ev['ret'] = ['exception', 0] if op in ('tx', 'raw') else ([['exception', 0]] if op in ('block', 'txs') else -1)
+            ev['ret'] = ['exception', 0] if op in ('tx', 'raw') else ([['exception', 0]] if op in ('block', 'txs') else
+                                                                      ([['exception', 0, 0, 0]] if op == 'utxos' else (ev.get('truth') is False if op == 'isspent' else -1)))
             d[0] += ' EXC %s: %s' % (type(e).__name__, str(e)[:100])
         desc.append(d[0])
         events.append(ev)
@@ -476,10 +542,14 @@ def run(replay=None):
     thorough = tier() == 'thorough'
     ck.rule = ('one case = (terminal behaviour of ServiceFailover: response assignment x provider order x max_providers x '
                'max_errors) x query method x network, replayed through bitcoinlib.services.Service with scripted providers; '
-               'class = (sorted multiset of responses, outcome, method)')
+               'class = (sorted multiset of responses, outcome, method); cache histories = 6-12 random queries (gettransaction, '
+               'getrawtransaction, getblock pages, gettransactions, getutxos, getbalance, isspent, blockcount, estimatefee) with the '
+               'provider answering or failing, against one sqlite cache in a static world; class = (query, provider, outcome, page limit)')
     ck.assumptions = ['fake providers injected via providers.json and bitcoinlib.services.vfake stand for real provider clients',
                       'provider order is fixed by distinct priorities in the exhaustive replay; ties are covered by trace validation',
-                      'a False return is accepted as failure where False cannot be a provider answer (see DESIGN C20)']
+                      'a False return is accepted as failure where False cannot be a provider answer (see DESIGN C20)',
+                      'cache histories: the truth does not change during a history, so every answer served from the cache must equal '
+                      'what a provider answered before; fake isspent answers 1/0 like the real clients']
     ck.model(common.model_check('ServiceFailover', 'MC_ServiceFailover_thorough.cfg' if thorough else 'MC_ServiceFailover.cfg',
                                 expect_actions=['Iter', 'Exit']))
     # (G) terminal behaviours
